@@ -315,6 +315,7 @@ class ObjMixin:
     def volatile_view(self, o: Obj, name, init, ann=None):
         key = ("vol", o.uid, name)
         if key in self.vol_cache:
+            self.vol_reads.append(self.vol_cache[key])
             return self.vol_cache[key]
         elem_classes, elem_is_list, kind = set(), False, None
         # element types from annotations anywhere in the MRO
@@ -349,6 +350,7 @@ class ObjMixin:
         else:
             v = SVal(o, name, init)
         self.vol_cache[key] = v
+        self.vol_reads.append(v)
         return v
 
     def scoll_elem(self, sc: SColl, label):
